@@ -77,6 +77,15 @@ def cases(tier):
             for near in NEAR_MAC:
                 out.append((role, marker, (), (db_cbc[0],), (near,), 'nearmiss'))
                 out.append((role, marker, (dch,), (), (near,), 'nearmiss'))
+    # siblings: a CBC cipher of the database next to the non-CBC ciphers of the same family (des-cbc with des, des-cfb, ...; 3des-cbc with
+    # 3des-ctr ...): the warning goes to the CBC cipher alone, whatever rating rows the family shares in the table
+    for c in db_cbc:
+        fam = c.split('-')[0]
+        sibs = [n for n in enc if n != c and n.split('-')[0].split('@')[0] == fam and not T.is_cbc(n) and not T.is_chacha(n)]
+        for role in ('server', 'client'):
+            for marker in ('none', 'own'):
+                for k in range(0, len(sibs), 2):
+                    out.append((role, marker, (), (c,) + tuple(sibs[k:k + 2]), (db_etm[0],), 'nearmiss'))
     # long lists: the relevant name behind N other names, N on both sides of 50, 64, 128 and 255
     for role in ('server', 'client'):
         for marker in ('none', 'own'):
